@@ -6,6 +6,7 @@ import (
 	"net"
 	"time"
 
+	"golang.org/x/net/http2"
 	"golang.org/x/net/http2/hpack"
 )
 
@@ -34,4 +35,35 @@ func (l *Ledger) Respond(sid uint32, status string, endStream bool, extra ...hpa
 func PostFields(authority, path string, extra ...hpack.HeaderField) []hpack.HeaderField {
 	f := []hpack.HeaderField{{Name: ":method", Value: "POST"}, {Name: ":scheme", Value: "https"}, {Name: ":authority", Value: authority}, {Name: ":path", Value: path}}
 	return append(f, extra...)
+}
+
+// AutoPingAck answers every PING of the implementation from a goroutine of
+// its own (the client transport counts an unanswered PING that it bundles with
+// a RST_STREAM against its concurrency limit).
+func (l *Ledger) AutoPingAck() {
+	go func() {
+		p := l.P
+		from := 0
+		for {
+			i, ok := p.WaitFor(from, time.Hour, func(e Event) bool {
+				return e.EOF || (e.Is(http2.FramePing) && e.Flags&http2.FlagPingAck == 0)
+			})
+			if !ok {
+				return
+			}
+			p.mu.Lock()
+			ev := p.events[i]
+			p.mu.Unlock()
+			if ev.EOF {
+				return
+			}
+			l.smu.Lock()
+			err := p.Do(func(fr *http2.Framer) error { return fr.WritePing(true, ev.PingData) })
+			l.smu.Unlock()
+			if err != nil {
+				return
+			}
+			from = i + 1
+		}
+	}()
 }
